@@ -6,9 +6,11 @@ import shutil
 from . import core, tlc
 
 
-def judge(env, cases, chunk=60, workers=8, module="SemCheck", fields=None):
+def judge(env, cases, chunk=60, workers=15, module="SemCheck", fields=None):
     """cases: list of dict(id, prog, out(list of str), halt). Returns {id: verdict dict or None}.
     module / fields: another trace-validation module of spec/lang and the record fields it reads."""
+    if len(cases) < chunk * workers:          # keep every worker busy
+        chunk = max(8, -(-len(cases) // workers))
     chunks = [cases[i:i + chunk] for i in range(0, len(cases), chunk)]
 
     def run(ch):
@@ -20,7 +22,7 @@ def judge(env, cases, chunk=60, workers=8, module="SemCheck", fields=None):
                 else:
                     f.write(json.dumps({"id": c["id"], "prog": c["prog"], "out": c["out"], "halt": c["halt"],
                                         "out2": c.get("out2", c["out"]), "halt2": c.get("halt2", c["halt"])}) + "\n")
-        r = tlc.run(wd, module, module + ".cfg", ["lang", "lib"], workers=1, timeout=1800, case_prefix="@@OUT ", heap="4g")
+        r = tlc.run(wd, module, module + ".cfg", ["lang", "lib"], workers=1, timeout=1800, case_prefix="@@OUT ", heap="3g")
         out = {o["id"]: o for o in r["cases"]}
         err = None
         if not (r["finished"] and not r["error"]):
